@@ -424,6 +424,39 @@ func TestGvcReplay(t *testing.T) {
 			return
 		}
 	}
+	if strings.Contains(fn, "List") && dirfs {
+		// a directory that needs several getdents buffers
+		fs, _ := gvcDirFs(t)
+		fs.Mkdir("big")
+		want := []string{}
+		for i := 0; i < 400; i++ {
+			n := fmt.Sprintf("file-with-a-rather-long-name-%04d", i)
+			f, ok := fs.Create("big", n)
+			if !ok {
+				confirm("Create(big, %s) fails in an empty directory", n)
+				return
+			}
+			fs.Close(f)
+			want = append(want, n)
+		}
+		msg, p := gvcPanics(func() {
+			got := append([]string(nil), fs.List("big")...)
+			sort.Strings(got)
+			if len(got) != len(want) {
+				panic(fmt.Sprintf("List of a directory with %d files returns %d names", len(want), len(got)))
+			}
+			for i := range want {
+				if got[i] != want[i] {
+					panic(fmt.Sprintf("List of a directory with %d files: entry %d is %q, expected %q", len(want), i, got[i], want[i]))
+				}
+			}
+		})
+		fs.CloseFs()
+		if p {
+			confirm("%s", msg)
+			return
+		}
+	}
 	if strings.Contains(fn, "AtomicCreate") && dirfs {
 		// leftovers of an interrupted call: a longer temp file
 		fs, root := gvcDirFs(t)
